@@ -29,7 +29,7 @@ def log_entry(kind, payload, n):
     return "dv:" + ints(vec)
 
 
-def run_history(n, divsup, acksup, en0, div0, ops, rxpadding=0, streaming=False, high=False, scale=0.002):
+def run_history(n, divsup, acksup, en0, div0, ops, rxpadding=0, streaming=False, high=False, scale=0.01):
     """ops: list of op strings as the model driver takes them. Returns the per-op observation string."""
     from nxslib.comm import CommHandler
     from nxslib.nxscope import NxscopeHandler
